@@ -15,7 +15,7 @@ warnings.filterwarnings("ignore")
 
 PREAMBLE = c02.PREAMBLE.replace("V.Model.Plan V.Proofs.C02_proofs.", "V.Model.Plan V.Model.MultiFact V.Proofs.C02_proofs.") + """
 Definition gomf (ms : list pmodel) (q : pquery) : string :=
-  match run_multifact hid ms q with
+  match run_multifact hinj ms q with
   | MfRows rows => "ROWS#" ++ show rows ++ "#" ++ String.concat "," (metric_models q)
   | MfRejected => "REJECTED" | MfUnbound => "UNBOUND" | MfNotMultiFact => "NOTMF" end.
 """
